@@ -362,6 +362,8 @@ METRIC_PROFILE = S.Profile(S.ident_names(), single=("mandatory", "optional"),
 def histories(draw):
     nm = draw(st.integers(1, 3))
     models = [draw(S.model_specs(METRIC_PROFILE, 1, 10)) for _ in range(nm)]
+    if nm >= 2 and draw(st.integers(0, 2)) == 0:
+        models[-1] = S.eq_twin(draw, models[0])       # == to models[0] for the library, yet a different model
     steps = []
     for _ in range(draw(st.integers(1, 5))):
         flt = None
